@@ -251,6 +251,15 @@ func (x *Exec) modifiesToSet(spec *FuncSpec, ms *ModSet, argTypes map[string]typ
 				}
 				continue
 			}
+			if strings.Contains(m, "ptr(") {
+				// ptr(T, e).f  /  elems(ptr(T, e).f): e is any contract expression over the parameters
+				// (typically iref(h) for an interface-typed parameter)
+				if x.modifiesPtrForm(spec, ms, m, env, st) {
+					continue
+				}
+				x.bindingFailure(fmt.Sprintf("modifies clause %q of %s does not resolve", m, spec.Key))
+				continue
+			}
 			if strings.HasPrefix(m, "elems(") {
 				nm := strings.TrimSuffix(strings.TrimPrefix(m, "elems("), ")")
 				parts := strings.Split(nm, ".")
@@ -319,6 +328,78 @@ func (x *Exec) modifiesToSet(spec *FuncSpec, ms *ModSet, argTypes map[string]typ
 			x.bindingFailure(fmt.Sprintf("modifies clause %q of %s does not resolve", m, spec.Key))
 		}
 	}
+}
+
+func (x *Exec) modifiesPtrForm(spec *FuncSpec, ms *ModSet, m string, env map[string]Val, st *State) bool {
+	isElems := false
+	if strings.HasPrefix(m, "elems(") && strings.HasSuffix(m, ")") {
+		isElems = true
+		m = strings.TrimSuffix(strings.TrimPrefix(m, "elems("), ")")
+	}
+	dot := strings.LastIndex(m, ".")
+	if !strings.HasPrefix(m, "ptr(") || dot < 0 || m[dot-1] != ')' {
+		return false
+	}
+	fname := m[dot+1:]
+	inner := m[len("ptr(") : dot-1]
+	comma := strings.Index(inner, ",")
+	if comma < 0 {
+		return false
+	}
+	tn := strings.TrimSpace(inner[:comma])
+	etxt := strings.TrimSpace(inner[comma+1:])
+	T := x.w.lookupType(spec, tn)
+	if T == nil {
+		return false
+	}
+	su, ok := T.Underlying().(*types.Struct)
+	if !ok {
+		return false
+	}
+	idx, _ := findField(su, fname)
+	if idx < 0 {
+		return false
+	}
+	ft := su.Field(idx).Type()
+	ref := ""
+	if env != nil && st != nil {
+		if e, err := ParseExpr(etxt); err == nil {
+			c := &EvalCtx{x: x, names: env, st: st, old: st, oldNames: env}
+			if v, err := c.eval(e, sortRef); err == nil && len(v.L) >= 1 {
+				ref = v.L[len(v.L)-1]
+				if len(v.L) == 1 {
+					ref = v.L[0]
+				}
+			}
+		}
+	}
+	if !isElems {
+		tmp := NewModSet()
+		x.addTypeStoreMods(tmp, AKField, T, idx, ft)
+		if ref != "" && !isStructT(ft) && !isArrayT(ft) {
+			ms.addPoint(tmp, ref)
+		} else {
+			for n, s := range tmp.heap {
+				ms.heap[n] = s
+			}
+		}
+		return true
+	}
+	sl, ok := ft.Underlying().(*types.Slice)
+	if !ok {
+		return false
+	}
+	tmp := NewModSet()
+	x.addTypeStoreMods(tmp, AKElem, nil, 0, sl.Elem())
+	if ref != "" {
+		v := x.loadAtQuiet(st, Addr{K: AKField, Ref: ref, ST: T, Field: idx, T: ft})
+		ms.addPoint(tmp, v.L[0])
+	} else {
+		for n, s := range tmp.heap {
+			ms.heap[n] = s
+		}
+	}
+	return true
 }
 
 func (x *Exec) callMods(fr *Frame, c *ssa.CallCommon, ms *ModSet, depth int) {
@@ -691,7 +772,7 @@ func (x *Exec) resolveCallee(fr *Frame, c *ssa.CallCommon) (*ssa.Function, *Func
 	}
 	if f := c.StaticCallee(); f != nil {
 		key := funcKey(f)
-		if sp, ok := x.w.specs.Funcs[key]; ok {
+		if sp, ok := x.w.specs.Funcs[key]; ok && x.specApplies(sp, f, c) {
 			return f, sp, key
 		}
 		return f, nil, key
@@ -715,8 +796,51 @@ func (x *Exec) resolveCallee(fr *Frame, c *ssa.CallCommon) (*ssa.Function, *Func
 	return nil, nil, "func-value " + c.Value.Name()
 }
 
+// specApplies: a contract may be written for one concrete type behind an interface-typed
+// parameter (`applies h *collectStoreHeap`); at other call sites it does not exist.
+func (x *Exec) specApplies(sp *FuncSpec, f *ssa.Function, c *ssa.CallCommon) bool {
+	if len(sp.Applies) == 0 {
+		return true
+	}
+	names := x.paramNames(sp, f, c)
+	args := x.callArgValues(c)
+	for _, ap := range sp.Applies {
+		ok := false
+		for i, n := range names {
+			if n != ap[0] || i >= len(args) {
+				continue
+			}
+			a := args[i]
+			for {
+				if mi, isMI := a.(*ssa.MakeInterface); isMI {
+					a = mi.X
+					continue
+				}
+				if ci, isCI := a.(*ssa.ChangeInterface); isCI {
+					a = ci.X
+					continue
+				}
+				break
+			}
+			ts := a.Type().String()
+			want := strings.TrimPrefix(ap[1], "*")
+			if strings.HasSuffix(ts, "."+want) || strings.HasSuffix(ts, "/"+want) || ts == ap[1] {
+				ok = true
+			}
+		}
+		if !ok {
+			return false
+		}
+	}
+	return true
+}
+
 func (x *Exec) paramNames(spec *FuncSpec, callee *ssa.Function, c *ssa.CallCommon) []string {
 	if spec != nil && len(spec.Params) > 0 {
+		if callee != nil && callee.Signature.Recv() != nil && len(spec.Params) == len(callee.Params)-1 {
+			// header lists the parameters without the receiver: the receiver keeps its source name
+			return append([]string{callee.Params[0].Name()}, spec.Params...)
+		}
 		return spec.Params
 	}
 	var names []string
@@ -761,6 +885,21 @@ func resultNames(spec *FuncSpec, sig *types.Signature) []string {
 
 // ---------- calls ----------
 
+// isLocalName: the identifier named in an "unknown identifier" error is a local variable of the function.
+func (x *Exec) isLocalName(fr *Frame, msg string) bool {
+	i := strings.Index(msg, "unknown identifier")
+	if i < 0 {
+		return false
+	}
+	name := strings.Trim(strings.TrimSpace(msg[i+len("unknown identifier"):]), "\"':")
+	for _, l := range fr.fn.Locals {
+		if l.Comment == name {
+			return true
+		}
+	}
+	return false
+}
+
 // atCallOrdinary evaluates the at-call clauses of the function under verification that name
 // the callee key. An asserted clause becomes an obligation and is then available as a
 // hypothesis (assert-then-assume: sound because the assertion is itself discharged).
@@ -775,9 +914,20 @@ func (x *Exec) atCallOrdinary(fr *Frame, st *State, key string) {
 		if strings.HasSuffix(key, ac.Callee) || strings.HasSuffix(key, "."+ac.Callee) {
 			if ac.Assert != nil {
 				t, err := x.evalBool(fr, st, ac.Assert.E)
-				if err != nil {
+				if err != nil && strings.Contains(err.Error(), "unknown identifier") && x.isLocalName(fr, err.Error()) {
+					// a local of the clause does not exist yet at this call: the clause does not apply
+					// here (it has to apply at some call, checked after the body)
+					if x.atCallSkipped == nil {
+						x.atCallSkipped = map[string]bool{}
+					}
+					x.atCallSkipped[ac.Assert.Name()] = true
+				} else if err != nil {
 					x.bindingFailure(fmt.Sprintf("at call %s: %v", ac.Callee, err))
 				} else {
+					if x.exitHits == nil {
+						x.exitHits = map[string]int{}
+					}
+					x.exitHits["at-call:"+ac.Assert.Name()]++
 					x.obligeIn(st, "at-call "+ac.Callee, ac.Assert.Name(), t, "")
 					x.assumeIn(st, t)
 				}
